@@ -949,6 +949,7 @@ def check_C20(tier, seed):
         x = dict(g)
         x["id"] = g["id"] + "f9"
         x["opts"] = {"pest_optimizer": False}
+        x["entries"] = ["r%d" % k for k in range(8) if ("\nr%d = " % k) in g["text"]]     # not the skip rules themselves (C01's known finding)
         offv.append(x)
     props.run_generic(ctx, "c20off", offv, "s", cmp, with_pest=False, use_known=True)
     # generation is deterministic: N separate generator processes give byte-identical token streams
